@@ -155,15 +155,15 @@ theorem C01_class28 : (flatten (some errInvalidPassword)).code = [50, 56, 80, 48
     same segment or later -/
 theorem C01_no_session (cfg : Config) (h : Handlers) (s0 : Sess) (body rest : Bytes) (cp : List (Bytes × Bytes))
     (hcp : readClientParams (body.length + 1) body [] = some cp) (e : End)
-    (hp : (authPhase cfg h { s0 with inp := { s0.inp with items := deframe s0.inp.L rest, tail := (match s0.inp.tail with | .eof _ => Tail.eof (!(leftover s0.inp.L rest).isEmpty) | t => t) } }
+    (hp : (authPhase cfg h (sessionStart s0 rest)
             ((lookup (ascii "database") cp).getD []) ((lookup (ascii "user") cp).getD [])).2 = some e) :
-    let a := authPhase cfg h { s0 with inp := { s0.inp with items := deframe s0.inp.L rest, tail := (match s0.inp.tail with | .eof _ => Tail.eof (!(leftover s0.inp.L rest).isEmpty) | t => t) } }
+    let a := authPhase cfg h (sessionStart s0 rest)
             ((lookup (ascii "database") cp).getD []) ((lookup (ascii "user") cp).getD [])
     let r := serveAfterVersion cfg h s0 body rest
     r.msgs = a.1.out.reverse ∧ r.ev = a.1.ev.reverse ∧ r.ending = e := by
   intro a r
   simp only [r, serveAfterVersion, hcp]
-  rcases ha : authPhase cfg h { s0 with inp := { s0.inp with items := deframe s0.inp.L rest, tail := (match s0.inp.tail with | .eof _ => Tail.eof (!(leftover s0.inp.L rest).isEmpty) | t => t) } }
+  rcases ha : authPhase cfg h (sessionStart s0 rest)
             ((lookup (ascii "database") cp).getD []) ((lookup (ascii "user") cp).getD []) with ⟨s1, oe⟩
   have : oe = some e := by rw [ha] at hp; exact hp
   subst this
